@@ -1076,6 +1076,12 @@ func (s *qSim) deliver(ev qEvent) {
 				// pod cache (used later by MigratePod) or by the scheduling cycle (used later by Unreserve)
 				s.r.Tag("stale-pod-object")
 			}
+			if pp := s.processed[np.Name]; changed && s.inFlight[np.Name] && (pp == nil || pp.Spec.NodeName == "") {
+				// the same class, reached the other way round: the change is handled while a scheduling cycle that started
+				// from an older copy holds the pod reserved (its bind has not been seen yet): OnPodUpdate moves the pod
+				// without its reservation
+				s.r.Tag("stale-pod-object")
+			}
 			if np.Spec.NodeName != "" {
 				s.usedBeforeKeys(np)
 			}
